@@ -287,6 +287,24 @@ func (e *Engine) Run() error {
 	}
 	var wg sync.WaitGroup
 	errs := make(chan error, n)
+	stopProgress := make(chan struct{})
+	defer close(stopProgress)
+	go func() {
+		t0 := time.Now()
+		tick := time.NewTicker(20 * time.Second)
+		defer tick.Stop()
+		for {
+			select {
+			case <-stopProgress:
+				return
+			case <-tick.C:
+				e.Ex.mu.Lock()
+				fmt.Fprintf(os.Stderr, "  ... %.0fs paths=%d queued=%d active=%d forks=%d pruned=%d obligations=%d violations=%d unsupported=%d\n", time.Since(t0).Seconds(),
+					e.Ex.Stats.Paths, len(e.Ex.stack), e.Ex.active, e.Ex.Stats.Forks, e.Ex.Stats.Pruned, e.Ex.Stats.Obligations, len(e.Ex.Violations), e.Ex.Stats.Unsupported)
+				e.Ex.mu.Unlock()
+			}
+		}
+	}()
 	for w := 0; w < n; w++ {
 		wg.Add(1)
 		go func(w int) {
